@@ -192,20 +192,13 @@ fn any_tape<F: Function>(f: &F, k: usize) -> AnyTape<F> {
     }
 }
 
-/// A permutation of 0..n from a seed
-fn permutation(n: usize, seed: u64) -> Vec<usize> {
-    let mut v: Vec<usize> = (0..n).collect();
-    let mut r = crate::chooser::Rng::new(seed);
-    for i in (1..n).rev() {
-        v.swap(i, (r.next() % (i as u64 + 1)) as usize);
-    }
-    v
-}
-
 /// The hoarding workload of one thread: `gift` tapes came from the main
-/// thread; `n` more are built here from the function and two of its
-/// simplifications; all are evaluated (order from `seed`) and then dropped or
-/// recycled (another order)
+/// thread; the thread then *churns*: it grows its set of live tapes (built from
+/// the function and two of its simplifications) to `n`, shrinks it to a few,
+/// grows it again and drains it, evaluating a drawn live tape every few steps
+/// and dropping or recycling drawn ones - the traffic that pools, arenas and
+/// free-lists of storage see, with evaluations *after* storage went back and
+/// forth so that a page handed out twice is observable
 fn hoard_work<F: Function + Clone>(
     f: &F,
     gift: Vec<AnyTape<F>>,
@@ -234,18 +227,13 @@ fn hoard_work<F: Function + Clone>(
             }
         }
     }
-    let mut tapes: Vec<Option<AnyTape<F>>> = gift.into_iter().map(Some).collect();
-    for k in 0..n {
-        tapes.push(Some(any_tape(&fns[k % fns.len()], k + seed as usize)));
-    }
     let mut pe = F::new_point_eval();
     let mut ie = F::new_interval_eval();
     let mut fe = F::new_float_slice_eval();
     let mut ge = F::new_grad_slice_eval();
-    let mut out = vec![0u64; tapes.len()];
-    for k in permutation(tapes.len(), seed) {
+    let mut eval_one = |k: usize, tape: &AnyTape<F>| -> u64 {
         let pt: Vec<f32> = (0..nvars).map(|i| 0.25 * ((i + k) % 7) as f32 - 0.5).collect();
-        out[k] = match tapes[k].as_ref().unwrap() {
+        match tape {
             AnyTape::P(t) => ev_point::<F>(&mut pe, t, &pt).0.digest(),
             AnyTape::I(t) => ev_interval::<F>(&mut ie, t, &bx(k)).0.digest(),
             AnyTape::Fl(t) => {
@@ -265,20 +253,44 @@ fn hoard_work<F: Function + Clone>(
                     .collect();
                 ev_grad::<F>(&mut ge, t, &cols).digest()
             }
-        };
-    }
-    let order = match seed % 3 {
-        0 => (0..tapes.len()).collect::<Vec<_>>(),
-        1 => (0..tapes.len()).rev().collect(),
-        _ => permutation(tapes.len(), seed ^ 0x5a5a),
+        }
     };
-    for (j, k) in order.into_iter().enumerate() {
-        match tapes[k].take().unwrap() {
-            AnyTape::P(t) if j % 2 == 0 => drop(t.recycle()),
-            AnyTape::I(t) if j % 2 == 0 => drop(t.recycle()),
-            AnyTape::Fl(t) if j % 2 == 0 => drop(t.recycle()),
-            AnyTape::G(t) if j % 2 == 0 => drop(t.recycle()),
-            other => drop(other),
+    let mut r = crate::chooser::Rng::new(seed ^ 0xC0FFEE);
+    let mut live: Vec<(usize, AnyTape<F>)> = gift.into_iter().enumerate().collect();
+    let mut next_id = live.len();
+    let mut out = vec![];
+    let n = n.max(2);
+    let targets = [
+        n,
+        2 + (r.next() % 4) as usize,
+        n / 2 + (r.next() % (n as u64 / 2 + 1)) as usize,
+        0,
+    ];
+    for target in targets {
+        while live.len() != target {
+            let growing = live.len() < target;
+            if r.next() % 3 == 0 && !live.is_empty() {
+                let j = (r.next() % live.len() as u64) as usize;
+                let (id, t) = &live[j];
+                out.push(mix(*id as u64, eval_one(*id, t)));
+            } else if growing {
+                let id = next_id;
+                next_id += 1;
+                live.push((id, any_tape(&fns[id % fns.len()], id + seed as usize)));
+            } else {
+                let j = (r.next() % live.len() as u64) as usize;
+                let (_, t) = live.swap_remove(j);
+                if r.next() % 2 == 0 {
+                    match t {
+                        AnyTape::P(t) => drop(t.recycle()),
+                        AnyTape::I(t) => drop(t.recycle()),
+                        AnyTape::Fl(t) => drop(t.recycle()),
+                        AnyTape::G(t) => drop(t.recycle()),
+                    }
+                } else {
+                    drop(t);
+                }
+            }
         }
     }
     out
@@ -378,7 +390,7 @@ where
     let hoard_par: [(usize, usize, u64); 2] = [0, 1].map(|_| {
         (
             ch.choose("e6_gift", 7) as usize,
-            6 + ch.choose("e6_hoard", 23) as usize,
+            6 + ch.choose("e6_hoard", 40) as usize,
             ch.choose("e6_hoard_seed", 1 << 20) as u64,
         )
     });
@@ -1259,6 +1271,198 @@ fn run_b_to_kth(c: &Child, k: usize) -> Result<BState, String> {
     }
 }
 
+/// True if the instruction is a compare-and-swap (`cmpxchg`, `cmpxchg8b/16b`)
+fn is_cas(code: &[u8; 16]) -> bool {
+    let mut i = 0;
+    while i < 8 && matches!(code[i], 0xF0 | 0x66 | 0x67 | 0x2E | 0x36 | 0x3E | 0x26 | 0xF2 | 0xF3) {
+        i += 1;
+    }
+    if (0x40..=0x4F).contains(&code[i]) {
+        i += 1;
+    }
+    code[i] == 0x0F
+        && (matches!(code[i + 1], 0xB0 | 0xB1)
+            || (code[i + 1] == 0xC7 && (code[i + 2] >> 3) & 7 == 1 && (code[i + 2] >> 6) != 3))
+}
+
+fn code_at(tid: i32, rip: u64) -> [u8; 16] {
+    let mut code = [0u8; 16];
+    for w in 0..2u64 {
+        code[8 * w as usize..8 * w as usize + 8].copy_from_slice(&peek(tid, rip + 8 * w).to_le_bytes());
+    }
+    code
+}
+
+fn regs_of(tid: i32) -> libc::user_regs_struct {
+    let mut regs: libc::user_regs_struct = unsafe { std::mem::zeroed() };
+    pt(libc::PTRACE_GETREGS, tid, 0, &mut regs as *mut _ as usize);
+    regs
+}
+
+/// The 32-bit word of the child's memory that contains `ea`
+fn word_at(tid: i32, ea: u64) -> u64 {
+    let v = peek(tid, ea & !7);
+    if ea & 4 != 0 { v >> 32 } else { v & 0xffff_ffff }
+}
+
+/// Cell-directed second preemption.  With A frozen just before an instruction
+/// that operates on address `ea`: B runs with breakpoints on every
+/// synchronising instruction of the executable; the memory operand of each one
+/// it executes is decoded, and those on the same 4-byte word as `ea` are
+/// numbered 1, 2, ...; the word's value after each of them is returned.  With
+/// `stop_after = Some(j)` B stays frozen just after the j-th.
+fn run_b_cell(
+    c: &Child,
+    ea: u64,
+    stop_after: Option<usize>,
+) -> Result<(BState, Vec<u64>), String> {
+    let base = load_base(c.pid).ok_or("no load base")?;
+    let mut bps = std::collections::HashMap::new();
+    for v in sync_sites() {
+        let a = base + v;
+        bps.insert(a, set_bp(c.a, a));
+    }
+    let clear_all = |except: Option<u64>| {
+        for (a, o) in &bps {
+            if Some(*a) != except {
+                clear_bp(c.a, *a, *o);
+            }
+        }
+    };
+    let mut values = vec![];
+    let mut futex_polls = 0;
+    let t0 = std::time::Instant::now();
+    cont(c.b, 0);
+    loop {
+        match wait_tid(c.b, false) {
+            Some(Stop::Sig(libc::SIGTRAP)) => {
+                let site = get_rip(c.b) - 1;
+                let Some(orig) = bps.get(&site) else {
+                    clear_all(None);
+                    return Err(format!("thread B: SIGTRAP at {site:#x}, not a breakpoint"));
+                };
+                clear_bp(c.a, site, *orig);
+                set_rip(c.b, site);
+                let regs = regs_of(c.b);
+                let mem = crate::x86mem::decode(&code_at(c.b, site));
+                pt(libc::PTRACE_SINGLESTEP, c.b, 0, 0);
+                match wait_tid(c.b, true) {
+                    Some(Stop::Sig(libc::SIGTRAP)) => (),
+                    Some(Stop::Sig(s)) if s == SIG_B => {
+                        clear_all(Some(site));
+                        return Ok((BState::Done, values));
+                    }
+                    other => {
+                        clear_all(Some(site));
+                        return Err(format!("thread B stepping over a breakpoint: {other:?}"));
+                    }
+                }
+                if let Some(m) = mem {
+                    let b_ea = crate::x86mem::effective(&m, &gp_regs(&regs), get_rip(c.b));
+                    if b_ea & !3 == ea & !3 {
+                        values.push(word_at(c.b, ea));
+                        if Some(values.len()) == stop_after {
+                            clear_all(Some(site));
+                            return Ok((BState::Frozen, values));
+                        }
+                    }
+                }
+                set_bp(c.a, site);
+                cont(c.b, 0);
+            }
+            Some(Stop::Sig(s)) if s == SIG_B => {
+                clear_all(None);
+                return Ok((BState::Done, values));
+            }
+            Some(Stop::Sig(s)) => cont(c.b, resume_sig(s)),
+            Some(Stop::Event(_)) => cont(c.b, 0),
+            Some(Stop::Exited(_)) | Some(Stop::Killed(_)) => {
+                return Ok((BState::Gone, values));
+            }
+            None => {
+                futex_polls = if in_futex(c.pid, c.b) { futex_polls + 1 } else { 0 };
+                if futex_polls >= 4 || t0.elapsed() > std::time::Duration::from_millis(3000) {
+                    let at_marker = freeze(c, c.b, SIG_B);
+                    clear_all(None);
+                    return Ok((
+                        if at_marker.is_some() { BState::Done } else { BState::Blocked },
+                        values,
+                    ));
+                }
+                std::thread::sleep(std::time::Duration::from_micros(100));
+            }
+        }
+    }
+}
+
+/// Runs A of a fresh child to `point` (which must have `extra == 0`)
+fn child_at(seed: u64, point: Point) -> Result<Child, String> {
+    let c = start_child(seed)?;
+    let mut bps = std::collections::HashMap::new();
+    bps.insert(point.addr, set_bp(c.a, point.addr));
+    match run_a_to(&c, &bps, Some(point.nth + 1))? {
+        (_, false) => Ok(c),
+        (_, true) => Err("thread A finished before the preemption point".into()),
+    }
+}
+
+/// The address the instruction A is about to execute at `point` operates on
+/// (`None`: no memory operand the decoder reports)
+fn find_cell(seed: u64, point: Point) -> Result<Option<u64>, String> {
+    let c = child_at(seed, point)?;
+    let regs = regs_of(c.a);
+    let Some(m) = crate::x86mem::decode(&code_at(c.a, regs.rip)) else { return Ok(None) };
+    let next = if m.rip_rel {
+        // the length of the instruction: step over it (this child is only a scout)
+        pt(libc::PTRACE_SINGLESTEP, c.a, 0, 0);
+        match wait_tid(c.a, true) {
+            Some(Stop::Sig(libc::SIGTRAP)) => get_rip(c.a),
+            other => return Err(format!("scout step: {other:?}")),
+        }
+    } else {
+        0
+    };
+    Ok(Some(crate::x86mem::effective(&m, &gp_regs(&regs), next)))
+}
+
+/// Scout execution for the cell-directed mode: A frozen just before `point`,
+/// B runs its whole list under observation.  Returns the verdict of that
+/// (single-preemption) execution, whether B was blocked by A, the number of
+/// B's synchronising accesses to the word at `ea`, and the 1-based indices
+/// of those after which the word again held the value it had when A was frozen
+/// although B had changed it in between: the instants at which a delayed
+/// compare-and-swap of A would succeed on a value that went away and came back
+fn scout(seed: u64, point: Point, ea: u64) -> Result<(Verdict, bool, usize, Vec<usize>), String> {
+    let c = child_at(seed, point)?;
+    let v_a = word_at(c.a, ea);
+    let (state, values) = run_b_cell(&c, ea, None)?;
+    let mut blocked = false;
+    if matches!(state, BState::Blocked) {
+        // B waits for the frozen A: A finishes first
+        blocked = true;
+        cont(c.a, 0);
+        loop {
+            match wait_tid(c.a, true) {
+                Some(Stop::Sig(s)) if s == SIG_A => break,
+                Some(Stop::Sig(s)) => cont(c.a, resume_sig(s)),
+                Some(Stop::Event(_)) => cont(c.a, 0),
+                _ => break,
+            }
+        }
+    }
+    let v = finish(c, blocked, &mut blocked);
+    let mut changed = false;
+    let mut restoring = vec![];
+    for (k, val) in values.iter().enumerate() {
+        if *val != v_a {
+            changed = true;
+        } else if changed {
+            restoring.push(k + 1);
+        }
+    }
+    Ok((v, blocked, values.len(), restoring))
+}
+
 /// With B frozen in the middle of its list: A runs to its end marker (if A
 /// ends up waiting for something B holds, A is frozen, B finishes, A resumes),
 /// then B runs to its end marker
@@ -1312,6 +1516,14 @@ fn a_then_b_to_markers(c: &Child) {
 /// Discovery: the sequence of synchronising instructions (absolute addresses
 /// inside the executable) that thread A executes between its markers
 pub fn discover(seed: u64) -> Result<Option<Vec<u64>>, String> {
+    Ok(discover_cas(seed)?.map(|(s, _)| s))
+}
+
+/// Discovery that also tells which of the sites are compare-and-swap
+/// instructions
+pub fn discover_cas(
+    seed: u64,
+) -> Result<Option<(Vec<u64>, std::collections::HashSet<u64>)>, String> {
     let c = match start_child(seed) {
         Ok(c) => c,
         Err(e) if e.contains("exited early with 4") => return Ok(None),
@@ -1327,8 +1539,19 @@ pub fn discover(seed: u64) -> Result<Option<Vec<u64>>, String> {
     if !done {
         return Err("discovery ended before A's end marker".into());
     }
+    let mut cas = std::collections::HashSet::new();
+    for a in &hits {
+        // the breakpoints are still planted: the first byte is the saved one
+        let mut code = code_at(c.a, *a);
+        if let Some(o) = bps.get(a) {
+            code[0] = *o;
+        }
+        if is_cas(&code) {
+            cas.insert(*a);
+        }
+    }
     // the child is killed here (Drop): B never ran with breakpoints planted
-    Ok(Some(hits))
+    Ok(Some((hits, cas)))
 }
 
 /// Memory of the child that both worker threads can reach and that existed
@@ -1449,6 +1672,10 @@ pub struct Point {
     /// 0: B runs to completion while A is frozen; k > 0: B is frozen in turn
     /// just before its k-th synchronising instruction, A finishes, B finishes
     pub second: usize,
+    /// cell-directed second preemption (non-zero: the address A's pending
+    /// compare-and-swap operates on): B is frozen just *after* its
+    /// `second`-th synchronising access to that address instead
+    pub cell: u64,
 }
 
 /// One trial: A runs to `point`, is frozen, B runs its whole list, A resumes
@@ -1479,7 +1706,12 @@ pub fn trial(seed: u64, point: Point) -> (Verdict, bool) {
     }
     let mut blocked = false;
     if point.second > 0 && !a_done {
-        match run_b_to_kth(&c, point.second) {
+        let b_run = if point.cell != 0 {
+            run_b_cell(&c, point.cell, Some(point.second)).map(|(s, _)| s)
+        } else {
+            run_b_to_kth(&c, point.second)
+        };
+        match b_run {
             Ok(BState::Frozen) => {
                 a_then_b_to_markers(&c);
                 let v = finish(c, true, &mut blocked);
@@ -1522,8 +1754,8 @@ fn skeleton_points(seq: &[u64]) -> Vec<Point> {
     let mut out = vec![];
     for (k, a) in seq.iter().enumerate() {
         let nth = seq[..k].iter().filter(|b| *b == a).count();
-        out.push(Point { addr: *a, nth, extra: 0, second: 0 });
-        out.push(Point { addr: *a, nth, extra: 1, second: 0 });
+        out.push(Point { addr: *a, nth, extra: 0, second: 0, cell: 0 });
+        out.push(Point { addr: *a, nth, extra: 1, second: 0, cell: 0 });
     }
     out
 }
@@ -1538,8 +1770,8 @@ fn conflict_points(a: &[Access], b: &[Access]) -> Vec<Point> {
     for x in a {
         let conflict = if x.write { b_any.contains(&x.key) } else { b_written.contains(&x.key) };
         if conflict {
-            out.push(Point { addr: x.rip, nth: x.nth, extra: 0, second: 0 });
-            out.push(Point { addr: x.rip, nth: x.nth, extra: 1, second: 0 });
+            out.push(Point { addr: x.rip, nth: x.nth, extra: 0, second: 0, cell: 0 });
+            out.push(Point { addr: x.rip, nth: x.nth, extra: 1, second: 0, cell: 0 });
         }
     }
     out.sort();
@@ -1570,7 +1802,7 @@ pub fn run(st: &Shared, tier: Tier, rep: &mut RunReport) {
         rep.count("e6.unavailable_no_objdump", 1);
         return;
     }
-    let seq = match discover(seed) {
+    let (seq, cas_sites) = match discover_cas(seed) {
         Ok(Some(s)) => s,
         Ok(None) => {
             rep.count("e6.skipped_scenarios", 1);
@@ -1672,8 +1904,78 @@ pub fn run(st: &Shared, tier: Tier, rep: &mut RunReport) {
         }
         points.extend(two);
     }
-    for p in points {
-        let (v, blocked) = trial(seed, p);
+    // cell-directed second preemptions: for a few of the compare-and-swap
+    // instructions A executes, a scout execution watches what B does to the
+    // word the CAS operates on; B is then frozen at the instants where that word
+    // holds again the value A saw, after having changed (the schedules in which
+    // a delayed CAS succeeds although the world moved on: ABA)
+    let mut queue: std::collections::VecDeque<(Point, bool)> =
+        points.into_iter().map(|p| (p, false)).collect();
+    let (n_scout, n_cand) = match tier {
+        Tier::Quick => (3usize, 3usize),
+        Tier::Thorough => (8, 8),
+    };
+    {
+        let cas_hits: Vec<usize> =
+            (0..seq.len()).filter(|k| cas_sites.contains(&seq[*k])).collect();
+        rep.count("e6.cas_instructions_executed_by_first_thread", cas_hits.len() as u64);
+        let ch = &mut st.borrow_mut().ch;
+        let mut picked: Vec<usize> = vec![];
+        if cas_hits.len() <= n_scout {
+            picked = cas_hits.clone();
+        } else {
+            for _ in 0..n_scout {
+                picked.push(cas_hits[ch.choose("e6_cas_point", cas_hits.len() as u32) as usize]);
+            }
+            picked.sort();
+            picked.dedup();
+        }
+        for k in picked {
+            let nth = seq[..k].iter().filter(|b| **b == seq[k]).count();
+            queue.push_back((Point { addr: seq[k], nth, extra: 0, second: 0, cell: 0 }, true));
+        }
+    }
+    while let Some((mut p, is_scout)) = queue.pop_front() {
+        let (v, blocked) = if is_scout {
+            let r = find_cell(seed, p).and_then(|cell| match cell {
+                None => Ok(None),
+                Some(ea) => scout(seed, p, ea).map(|r| Some((ea, r))),
+            });
+            match r {
+                Ok(None) => {
+                    rep.count("e6.cas_without_decoded_memory_operand", 1);
+                    continue;
+                }
+                Ok(Some((ea, (v, blocked, n_acc, restoring)))) => {
+                    rep.count("e6.cas_points_scouted", 1);
+                    rep.count("e6.second_thread_accesses_to_the_cas_word", n_acc as u64);
+                    rep.count("e6.value_restoring_instants", restoring.len() as u64);
+                    st.borrow_mut().log("e6_scout", n_acc as u64, restoring.len() as u64);
+                    let ch = &mut st.borrow_mut().ch;
+                    let mut js: Vec<usize> = vec![];
+                    if restoring.len() <= n_cand {
+                        js = restoring.clone();
+                    } else {
+                        for _ in 0..n_cand {
+                            js.push(restoring[ch.choose("e6_restoring_instant", restoring.len() as u32) as usize]);
+                        }
+                        js.sort();
+                        js.dedup();
+                    }
+                    for j in js {
+                        queue.push_back((Point { second: j, cell: ea, ..p }, false));
+                    }
+                    p.cell = ea;
+                    (v, blocked)
+                }
+                Err(e) => (Verdict::Harness(e), false),
+            }
+        } else {
+            trial(seed, p)
+        };
+        if p.cell != 0 && p.second > 0 {
+            rep.count("fault.second_thread_frozen_where_cas_word_restored", 1);
+        }
         rep.count("fault.preempted_at_instruction", 1);
         if p.second > 0 {
             rep.count("fault.second_thread_preempted_too", 1);
@@ -1688,7 +1990,7 @@ pub fn run(st: &Shared, tier: Tier, rep: &mut RunReport) {
         );
         rep.evaluations += 1;
         rep.steps += 1;
-        rep.sigs.push(mix(mix(mix(mix(seed, p.addr), p.nth as u64), p.extra), p.second as u64));
+        rep.sigs.push(mix(mix(mix(mix(mix(seed, p.addr), p.nth as u64), p.extra), p.second as u64), p.cell));
         rep.checked_oracle += 1;
         let place = format!(
             "child seed {seed}: thread A frozen {} execution #{} of the instruction at {:#x}{} ({}), {}",
@@ -1703,6 +2005,11 @@ pub fn run(st: &Shared, tier: Tier, rep: &mut RunReport) {
             },
             if p.second == 0 {
                 "thread B run to completion in between".to_string()
+            } else if p.cell != 0 {
+                format!(
+                    "thread B then frozen just after its synchronising access #{} to the word at {:#x} that A's compare-and-swap is about to operate on (the word holds again the value A saw), A run to completion, then B",
+                    p.second, p.cell
+                )
             } else {
                 format!(
                     "thread B then frozen just before its synchronising instruction #{}, A run to completion, then B",
